@@ -158,6 +158,10 @@ namespace Detail
 					"The target field range is insufficient for the value being loaded");
 			}
 		}
+		catch (const SerializationException&) {
+			// Keep the error code of exceptions which were thrown by this function itself
+			throw;
+		}
 		catch (...) {
 			throw SerializationException(SerializationErrorCode::ParsingError, "Unknown error when convert value");
 		}
